@@ -1,6 +1,7 @@
 import OnetVerif.Model.C13
 import OnetVerif.Gen.C13
 import OnetVerif.Gen.C13K
+import OnetVerif.Props.C13
 /-! Property C13 — the definitions regenerated from the Go source (`Gen/C13.lean`, written by `harness/cmd/go2lean`
 on every check run from `messages.go`, `protocol.go`, `tree.go`, `service.go`, `network/encoding.go`) equal the
 hand-written pre-images of `Model/C13.lean`.  `Gen.C13.Token` is the Go struct field by field (every id a
@@ -122,4 +123,143 @@ theorem c13_gen_Context_NewPeerSetID_eq (H : HashFns) (c : Gen.C13.Context) (dat
   have hs : Gen.Rt.slice c.serviceID 0 (Gen.Rt.len c.serviceID) = some c.serviceID := by
     simp [Gen.Rt.slice, Gen.Rt.len]
   simp only [Gen.C13.Context_NewPeerSetID, hs, peerSetId, peerSetPre, List.nil_append]
+
+/-! ### round 7, second part: the hash feeds themselves (loops over a hash writer, translated by `go2lean` with the
+hash object as an accumulating byte list: `Gen.Rt.loop`) -/
+
+/-- the translated identity read as the model's roster member: its key, then its service keys in order -/
+def memOfGen (id : Gen.C13.ServerIdentity) : Member :=
+  { key := id.Public, svcs := id.ServiceIdentities.map (·.Public) }
+
+private theorem loop_next {α σ ρ : Type} (f : σ → α → σ) (body : σ → α → Gen.Rt.Step ρ σ)
+    (hb : ∀ s x, body s x = .next (f s x)) : ∀ (xs : List α) (s : σ), Gen.Rt.loop xs s body = Sum.inr (xs.foldl f s) := by
+  intro xs
+  induction xs with
+  | nil => intro s; rfl
+  | cons x r ih => intro s; simp only [Gen.Rt.loop, hb, List.foldl_cons]; exact ih _
+
+private theorem svc_fold (l : List Gen.C13.ServiceIdentity) (h : Bytes) :
+    l.foldl (fun h s => h ++ s.Public) h = h ++ (l.map (·.Public)).flatten := by
+  induction l generalizing h with
+  | nil => simp
+  | cons a r ih => simp [ih, List.append_assoc]
+
+private theorem member_fold (ids : List Gen.C13.ServerIdentity) (h : Bytes) :
+    ids.foldl (fun h id => (h ++ id.Public) ++ (id.ServiceIdentities.map (·.Public)).flatten) h =
+      h ++ rosterPre (ids.map memOfGen) := by
+  induction ids generalizing h with
+  | nil => simp [rosterPre, rosterKeys]
+  | cons a r ih =>
+    simp only [List.foldl_cons, ih]
+    simp only [List.map_cons, rosterPre, rosterKeys, memberKeys, memOfGen, List.flatten_append,
+      List.flatten_cons, List.append_assoc]
+
+/-- **the bytes `NewRoster`'s loops feed to the hash, as translated from the source, are the model's roster
+pre-image** (appended to whatever the hash held): every member's key followed by its service keys, members in list
+order.  Falsified by: skipping the service keys (mutant `C13_roster_ignores_service_keys`), feeding them before the
+server key, a separator, feeding only the first member. -/
+theorem c13_gen_NewRoster_h_eq (H : HashFns) (ids : List Gen.C13.ServerIdentity) (h : Bytes) :
+    Gen.C13.NewRoster_h H ids h = h ++ rosterPre (ids.map memOfGen) := by
+  unfold Gen.C13.NewRoster_h
+  have inner : ∀ (id : Gen.C13.ServerIdentity) (h : Bytes),
+      Gen.Rt.loop (ρ := Gen.Rt.Step Bytes Bytes) id.ServiceIdentities h (fun h srvid => Gen.Rt.Step.next (h ++ srvid.Public)) =
+        Sum.inr (h ++ (id.ServiceIdentities.map (·.Public)).flatten) := by
+    intro id h
+    rw [loop_next (fun h (s : Gen.C13.ServiceIdentity) => h ++ s.Public) _ (fun _ _ => rfl), svc_fold]
+  rw [loop_next (fun h (id : Gen.C13.ServerIdentity) => (h ++ id.Public) ++ (id.ServiceIdentities.map (·.Public)).flatten)]
+  · exact member_fold ids h
+  · intro s x
+    simp only [inner]
+
+/-- **`NewRoster`'s id as assembled from the two translated pieces (hash feed, `ID:` expression) is the model's
+roster id** -/
+theorem c13_gen_NewRoster_id (H : HashFns) (ids : List Gen.C13.ServerIdentity) :
+    Gen.C13.NewRoster_ID H (Gen.C13.NewRoster_h H ids []) = rosterId H (ids.map memOfGen) := by
+  rw [c13_gen_NewRoster_h_eq]; rfl
+
+/-- **`Roster.GetID` as translated (the whole function) is the model's roster id of the list**: it never fails, and it
+is the id `NewRoster` gives the same list — the two derivations agree for every roster -/
+theorem c13_gen_Roster_GetID_eq (H : HashFns) (ro : Gen.C13.Roster) :
+    Gen.C13.Roster_GetID H ro = some (rosterId H (ro.List.map memOfGen)) ∧
+    Gen.C13.Roster_GetID H ro = some (Gen.C13.NewRoster_ID H (Gen.C13.NewRoster_h H ro.List [])) := by
+  have h1 : Gen.C13.Roster_GetID H ro = some (rosterId H (ro.List.map memOfGen)) := by
+    unfold Gen.C13.Roster_GetID
+    have inner : ∀ (id : Gen.C13.ServerIdentity) (h : Bytes),
+        Gen.Rt.loop (ρ := Gen.Rt.Step (Option Bytes) Bytes) id.ServiceIdentities h
+          (fun h srvid => Gen.Rt.Step.next (h ++ srvid.Public)) =
+          Sum.inr (h ++ (id.ServiceIdentities.map (·.Public)).flatten) := by
+      intro id h
+      rw [loop_next (fun h (s : Gen.C13.ServiceIdentity) => h ++ s.Public) _ (fun _ _ => rfl), svc_fold]
+    dsimp only
+    rw [loop_next (fun h (id : Gen.C13.ServerIdentity) => (h ++ id.Public) ++ (id.ServiceIdentities.map (·.Public)).flatten)]
+    · simp only [member_fold, List.nil_append]; rfl
+    · intro s x
+      simp only [inner]
+  exact ⟨h1, by rw [h1, c13_gen_NewRoster_id]⟩
+
+/-! #### the tree: the closure `NewTree` hands to `Visit`, folded over the pre-order walk, is the model's `dfs` -/
+
+mutual
+/-- the translated pointer tree (`Children` slices) as the model's first-child / next-sibling forest -/
+def forestOfNode : Gen.C13.TreeNode → Forest → Forest
+  | ⟨si, ch⟩, sib => .node si.Public (forestOfList ch) sib
+def forestOfList : List Gen.C13.TreeNode → Forest
+  | [] => .nil
+  | c :: r => forestOfNode c (forestOfList r)
+end
+
+mutual
+/-- `TreeNode.Visit` (tree.go: `fn(depth, t)`, then every child in order): the nodes in the order the closure sees them -/
+def visitNode : Gen.C13.TreeNode → List Gen.C13.TreeNode
+  | ⟨si, ch⟩ => ⟨si, ch⟩ :: visitList ch
+def visitList : List Gen.C13.TreeNode → List Gen.C13.TreeNode
+  | [] => []
+  | c :: r => visitNode c ++ visitList r
+end
+
+private theorem visit_one (H : HashFns) (h : Bytes) (d : Int) (tn : Gen.C13.TreeNode) :
+    Gen.C13.NewTree_visit H h d tn = h ++ (tn.ServerIdentity.Public ++ leafMark (forestOfList tn.Children)) := by
+  unfold Gen.C13.NewTree_visit Gen.C13.TreeNode_IsLeaf leafMark
+  cases hc : tn.Children with
+  | nil => simp [Gen.Rt.len, forestOfList, Forest.isNil]
+  | cons c r =>
+    have : ¬ ((r.length : Int) + 1 = 0) := by omega
+    obtain ⟨si, ch⟩ := c
+    simp [Gen.Rt.len, forestOfList, forestOfNode, Forest.isNil, this]
+
+mutual
+private theorem visit_fold_node (H : HashFns) (d : Int) : ∀ (t : Gen.C13.TreeNode) (sib : Forest) (h : Bytes),
+    (visitNode t).foldl (fun h tn => Gen.C13.NewTree_visit H h d tn) h ++ dfs sib = h ++ dfs (forestOfNode t sib)
+  | ⟨si, ch⟩, sib, h => by
+    simp only [visitNode, List.foldl_cons, forestOfNode, dfs]
+    rw [visit_one, visit_fold_list H d ch]
+    simp only [List.append_assoc]
+private theorem visit_fold_list (H : HashFns) (d : Int) : ∀ (ts : List Gen.C13.TreeNode) (h : Bytes),
+    (visitList ts).foldl (fun h tn => Gen.C13.NewTree_visit H h d tn) h = h ++ dfs (forestOfList ts)
+  | [], h => by simp [visitList, forestOfList, dfs]
+  | c :: r, h => by
+    simp only [visitList, List.foldl_append, forestOfList]
+    rw [visit_fold_list H d r, visit_fold_node H d c]
+end
+
+/-- **the closure `NewTree` hands to `Visit`, as translated from the source, folded over the pre-order walk of the
+pointer tree, feeds the hash with the model's depth-first pre-image `dfs`**: every node's key, the byte `1` after a
+leaf, whatever depth the walk reports.  Falsified by: no leaf marker (mutant `C13_tree_no_leaf_marker`), the marker
+before the key or after inner nodes, the depth or the roster index fed to the hash (seed C13r3-A). -/
+theorem c13_gen_NewTree_visit_dfs (H : HashFns) (d : Int) (root : Gen.C13.TreeNode) (h : Bytes) :
+    (visitNode root).foldl (fun h tn => Gen.C13.NewTree_visit H h d tn) h = h ++ dfs (forestOfNode root .nil) := by
+  have := visit_fold_node H d root .nil h
+  simpa [dfs] using this
+
+/-- **`NewTree`'s id as assembled from the translated pieces (closure over the walk, `url`, `ID:`) is the model's tree id** -/
+theorem c13_gen_NewTree_id (H : HashFns) (d : Int) (ro : Gen.C13.Roster) (root : Gen.C13.TreeNode) :
+    Gen.C13.NewTree_ID H (Gen.C13.NewTree_url H ro ((visitNode root).foldl (fun h tn => Gen.C13.NewTree_visit H h d tn) [])) =
+      treeId H ro.ID (forestOfNode root .nil) := by
+  rw [c13_gen_NewTree_visit_dfs, List.nil_append]
+  exact c13_gen_NewTree_ID_tree H ro _
+
+/-- non-vacuity: the two colliding witnesses of the known finding are pointer trees of the translation -/
+example : let n (k : Nat) (ch : List Gen.C13.TreeNode) : Gen.C13.TreeNode := ⟨⟨[k], []⟩, ch⟩
+    forestOfNode (n 10 [n 11 [n 12 [], n 13 []]]) .nil = wT1 ∧ forestOfNode (n 10 [n 11 [n 12 []], n 13 []]) .nil = wT2 := by
+  constructor <;> rfl
 end C13
